@@ -56,14 +56,19 @@ def streams(ctx):
             continue
         sub = Ctx(ctx.pid + "/" + name, ctx.tier, ctx.seed)
         try:
-            sts = mod.streams(sub)
+            # c17sieve's "wild" histories call the internal Sieve object OUTSIDE its declared preconditions on purpose
+            # (unaligned sizes, decreasing stops) to compare raw state with the mirror model; on the ENABLE_ASSERT build
+            # they trip the ASSERTs by construction and say nothing about inputs the public API accepts: excluded here.
+            kw = {"c17sieve": dict(audit=False, wild_histories=False), "c17": dict(sieve_half=False)}.get(name, {})
+            sts = mod.streams(sub, **kw)
         except Exception as e:  # a source stream generator that fails is reported, not hidden
             ctx.res.notes.append("stream source %s failed: %r" % (name, e))
             continue
         for st in sts:
             if st.env and any(k.startswith("PRIMECOUNT_VERIF") for k in st.env):
                 continue
-            ops = [o for o in st.ops if not heavy(o)]
+            pre = getattr(mod, "within_declared_preconditions", lambda o: True)
+            ops = [o for o in st.ops if not heavy(o) and pre(o)]
             if len(ops) > cap:
                 step = len(ops) / float(cap)
                 ops = [ops[int(i * step)] for i in range(cap)]
